@@ -430,7 +430,10 @@ class Engine:
     def lemma_statement(self, lem, st):
         body = lem.statement
         if not lem.binders:
-            return self.spec(body, st)
+            # (a lemma without binders still holds only under its hypotheses)
+            hyps0 = [self.spec(h, st) for h in lem.hyps]
+            b0 = self.spec(body, st)
+            return z3.Implies(z3.And(*hyps0), b0) if hyps0 else b0
         env2 = st.clone()
         bs = []
         for (n, s) in lem.binders:
@@ -462,6 +465,14 @@ class Engine:
             env2, xs, hyps, goal = instance()
             env2.assume(*hyps)
             for k, h in enumerate(lem.hints):
+                if h.text.startswith("use "):
+                    # one explicit instance of an EARLIER lemma of the same contract (already proved; no circularity)
+                    nm = h.text[4:].split("(")[0].strip()
+                    names = [l.name for l in self.c.lemmas]
+                    if nm not in names or names.index(nm) >= names.index(lem.name):
+                        raise EngineError(f"lemma {lem.name}: `use {nm}` must name a lemma stated before it")
+                    self.exec_ghost(h.text, env2)
+                    continue
                 g = self.spec(h, env2)
                 self.oblige(env2, g, f"lemma:{lem.name}/hint#{k}", "lemma", None, h.text)
                 env2.assume(g)
@@ -1073,7 +1084,16 @@ class Engine:
             st.assume(z3.ForAll(kq, z3.Implies(z3.And(0 <= kq, kq < desc.count),
                                                (el.data if isinstance(el, Arr) else el) == self.gfuns[spec.seq_fun](kq))))
         if spec.seq_name:
-            st.env[spec.seq_name] = gseq
+            if isinstance(spec.seq_name, (list, tuple)):
+                # zip of generators under contract: one ghost sequence per zipped generator
+                inners = getattr(desc, "inners", None) or getattr(getattr(desc, "inner", None), "inners", None) or []
+                seqs = [getattr(i_, "ghost_seq", None) for i_ in inners]
+                if len(seqs) != len(spec.seq_name) or any(q is None for q in seqs):
+                    raise StaleContract(f"{self.qualname}: loop {lab} no longer zips {len(spec.seq_name)} generators under contract")
+                for nm, q in zip(spec.seq_name, seqs):
+                    st.env[nm] = q
+            else:
+                st.env[spec.seq_name] = gseq
         idx = spec.index or f"$k_{lab}"
         outs_final = []
         # --- initialisation
